@@ -535,41 +535,42 @@ Qed.
 (* ------------------------------------------------------------------ interrupt / resume *)
 
 (* A run plan (Model/CallbacksResume.v): a nested layered graph whose lambdas and tool calls ask
-   for an interrupt (compose.InterruptAndRerun) during their next k executions.  [plan_seq] is
-   the run and the runs that resume it (same checkpoint id, same call options): a run in which
-   an execution asks for an interrupt (directly, through a tool call, or through a nested graph)
-   ends with an error after the stage, the next run executes the interrupted nodes again
-   (a nested graph continues from its own interrupted stage) and not the completed ones.
-   [run_seq] = what each run executes: (the call options that still designate something, the
-   graph).  For EVERY plan, every call options, every run of the sequence and every schedule of
-   that run: every executed unit - also one whose execution ends with an interrupt - has exactly
-   its start events followed by its end-or-error events. *)
+   for an interrupt (compose.InterruptAndRerun) during their next k executions.  [plan_seqf] is
+   the run and the runs that resume it (same checkpoint id; the k-th run is called with the call
+   options [os k] - the handlers come with the call, nothing about them is in the checkpoint): a
+   run in which an execution asks for an interrupt (directly, through a tool call, or through a
+   nested graph) ends with an error after the stage, the next run executes the interrupted nodes
+   again (a nested graph continues from its own interrupted stage) and not the completed ones.
+   [run_seqf] = what each run executes: (the call options that still designate something, the
+   graph).  For EVERY plan, every call options of every run, every run of the sequence and every
+   schedule of that run: every executed unit - also one whose execution ends with an interrupt -
+   has exactly its start events followed by its end-or-error events. *)
 Theorem resumed_runs_exactly_once_paired_units :
-  forall w is_stream g ginf fuel opts plan r t,
+  forall w is_stream g ginf fuel os plan r t,
     NoDup (g :: rstages_uids plan) ->
-    In r (run_seq fuel opts plan) ->
+    In r (run_seqf fuel os plan) ->
     traces (graph_prog is_stream g ginf (fst r) (snd r)) t ->
     forall e, In e (graph_table is_stream g ginf (fst r) (snd r)) ->
       filter (of_unit (ue_unit e)) (st_log (run_script true w t)) = uexp_events w e.
-Proof. exact runs_unit_logs. Qed.
+Proof. exact runsf_unit_logs. Qed.
 Print Assumptions resumed_runs_exactly_once_paired_units.
 
 Theorem resumed_runs_no_other_events :
-  forall w is_stream g ginf fuel opts plan r t,
+  forall w is_stream g ginf fuel os plan r t,
     NoDup (g :: rstages_uids plan) ->
-    In r (run_seq fuel opts plan) ->
+    In r (run_seqf fuel os plan) ->
     traces (graph_prog is_stream g ginf (fst r) (snd r)) t ->
     forall ev, In ev (st_log (run_script true w t)) ->
       exists e, In e (graph_table is_stream g ginf (fst r) (snd r)) /\ ev_unit ev = ue_unit e /\
                 In ev (uexp_events w e).
-Proof. exact runs_no_other_events. Qed.
+Proof. exact runsf_no_other_events. Qed.
 Print Assumptions resumed_runs_no_other_events.
 
 (* counting form: one start and one end-or-error invocation per attachment and execution *)
 Theorem resumed_runs_exactly_once_paired :
-  forall w is_stream g ginf fuel opts plan r t,
+  forall w is_stream g ginf fuel os plan r t,
     NoDup (g :: rstages_uids plan) ->
-    In r (run_seq fuel opts plan) ->
+    In r (run_seqf fuel os plan) ->
     traces (graph_prog is_stream g ginf (fst r) (snd r)) t ->
     forall e, In e (graph_table is_stream g ginf (fst r) (snd r)) ->
     forall s f, ue_timings e = [s; f] ->
@@ -577,73 +578,81 @@ Theorem resumed_runs_exactly_once_paired :
       List.length (filter (is_ev (ue_unit e) x tm (ue_info e)) (st_log (run_script true w t))) =
       if (timing_eqb tm s || timing_eqb tm f) && w_needs w x tm
       then count_occ N.eq_dec (ue_list e ++ w_globals w) x else 0%nat.
-Proof. exact runs_exactly_once_paired. Qed.
+Proof. exact runsf_exactly_once_paired. Qed.
 Print Assumptions resumed_runs_exactly_once_paired.
 
-(* in every run of the sequence a handler is invoked for a unit only if it is global or an option
-   of the CALL (not only of the reduced option list of the resumed run) attaches it to the unit *)
+(* every run of the sequence is some j-th call, and in it a handler is invoked for a unit only if
+   it is global or an option of THAT call attaches it to the unit (the reduced option list of a
+   resumed run attaches nothing the call does not): no handler of the interrupted call is served
+   by the run that resumes it *)
 Theorem resumed_runs_invoked_only_where_attached :
-  forall w is_stream g ginf fuel opts plan r t,
+  forall w is_stream g ginf fuel os plan r t,
     NoDup (g :: rstages_uids plan) ->
-    In r (run_seq fuel opts plan) ->
+    In r (run_seqf fuel os plan) ->
     traces (graph_prog is_stream g ginf (fst r) (snd r)) t ->
-    forall ev, In ev (st_log (run_script true w t)) ->
+    exists j, forall ev, In ev (st_log (run_script true w t)) ->
       exists e pe, In (e, pe) (graph_table_p is_stream g ginf (fst r) (snd r)) /\
         ev_unit ev = ue_unit e /\
         (In (ev_handler ev) (w_globals w) \/
-         exists o, In o opts /\ In (ev_handler ev) (fst o) /\ attaches o pe).
-Proof. exact runs_invoked_only_where_attached. Qed.
+         exists o, In o (os j) /\ In (ev_handler ev) (fst o) /\ attaches o pe).
+Proof. exact runsf_invoked_only_where_attached. Qed.
 Print Assumptions resumed_runs_invoked_only_where_attached.
 
 (* the sequence ends: with fuel beyond the number of interrupts still to come, the last run of
-   [plan_seq] is not interrupted (so the fuel Corr/C10.v uses, S (total_intr plan), never cuts a
+   [plan_seqf] is not interrupted (so the fuel Corr/C10.v uses, S (total_intr plan), never cuts a
    sequence short), and more fuel changes nothing *)
 Theorem run_sequence_ends :
-  forall fuel opts plan,
+  forall fuel k os plan,
     (total_intr plan < fuel)%nat ->
-    exists pre last, plan_seq fuel opts plan = pre ++ [last] /\
-      is_intr (run_outcome (live_opts last opts) last) = false.
-Proof. exact plan_seq_complete. Qed.
+    exists pre last, plan_seqf fuel k os plan = pre ++ [last] /\
+      is_intr (run_outcome (live_opts (snd last) (fst last)) (snd last)) = false.
+Proof. exact plan_seqf_complete. Qed.
 Print Assumptions run_sequence_ends.
 
 Theorem run_sequence_fuel_irrelevant :
-  forall fuel opts plan k,
-    (total_intr plan < fuel)%nat -> plan_seq (fuel + k) opts plan = plan_seq fuel opts plan.
-Proof. exact plan_seq_fuel. Qed.
+  forall fuel k os plan d,
+    (total_intr plan < fuel)%nat -> plan_seqf (fuel + d) k os plan = plan_seqf fuel k os plan.
+Proof. exact plan_seqf_fuel. Qed.
 Print Assumptions run_sequence_fuel_irrelevant.
 
 (* Non-vacuity: lambda 1 asks for an interrupt once; sub graph 2 holds lambda 3 and then lambda 4
-   (Transform) that asks once; lambda 5 completes; second stage lambda 6.  Handler 1 for the whole
-   graph, 2 designated to node path [2; 2] (lambda 4), 3 to node 5.  Run 0 is interrupted after
-   the first stage (units 1, 4, the sub graph 2 and the graph end with an error); run 1 executes 1
-   and 4 again - not 3 and 5, and the option designated to 5 is gone - and then 6. *)
+   (Transform) that asks once; lambda 5 completes; second stage lambda 6.  First call: handler 1
+   for the whole graph, 2 designated to node path [2; 2] (lambda 4), 3 to node 5.  Run 0 is
+   interrupted after the first stage (units 1, 4, the sub graph 2 and the graph end with an error).
+   The resuming call passes handler 4 for the whole graph, 2 to [2; 2] again, 3 to node 5 and 5 to
+   the path [2; 1] of the completed lambda 3: run 1 executes 1 and 4 again - not 3 and 5, whose
+   designations are accepted and attach to nothing - and then 6; handler 1 is not served. *)
 Definition ex_plan : list (list rnode) :=
   [[RLambda 1 1 1 1 false 1; RSub 2 2 2 [[RLambda 3 1 3 1 false 0]; [RLambda 4 2 4 8 false 1]];
     RLambda 5 3 5 1 false 0];
    [RLambda 6 4 6 1 false 0]].
 Definition ex_popts : list copt := [([1], []); ([2], [[2; 2]]); ([3], [[3]])].
+Definition ex_popts2 : list copt := [([4], []); ([2], [[2; 2]]); ([3], [[3]]); ([5], [[2; 1]])].
 
 Example resumed_runs_nonvacuous :
   NoDup (0 :: rstages_uids ex_plan) /\
   map (fun r => (fst r, map (fun e => (ue_unit e, ue_list e, ue_timings e)) (graph_table false 0 0 (fst r) (snd r))))
-      (run_seq (S (total_intr ex_plan)) ex_popts ex_plan) =
+      (run_seqf (S (total_intr ex_plan)) (two_opts ex_popts ex_popts2) ex_plan) =
     [(ex_popts,
       [(0, [1], [TStart; TError]); (1, [1], [TStart; TError]); (2, [1], [TStart; TError]);
        (3, [1], [TStart; TEnd]); (4, [1; 2], [TStartStream; TError]); (5, [1; 3], [TStart; TEnd])]);
-     ([([1], []); ([2], [[2; 2]])],
-      [(0, [1], [TStart; TEnd]); (1, [1], [TStart; TEnd]); (2, [1], [TStart; TEnd]);
-       (4, [1; 2], [TStartStream; TEndStream]); (6, [1], [TStart; TEnd])])] /\
+     ([([4], []); ([2], [[2; 2]])],
+      [(0, [4], [TStart; TEnd]); (1, [4], [TStart; TEnd]); (2, [4], [TStart; TEnd]);
+       (4, [4; 2], [TStartStream; TEndStream]); (6, [4], [TStart; TEnd])])] /\
   map (fun r => filter (of_unit 4)
                 (st_log (run_script true (w_plain [9]) (flatten_alt (graph_prog false 0 0 (fst r) (snd r))))))
-      (run_seq (S (total_intr ex_plan)) ex_popts ex_plan) =
+      (run_seqf (S (total_intr ex_plan)) (two_opts ex_popts ex_popts2) ex_plan) =
     [[Ev 4 9 TStartStream 4; Ev 4 2 TStartStream 4; Ev 4 1 TStartStream 4;
       Ev 4 1 TError 4; Ev 4 2 TError 4; Ev 4 9 TError 4];
-     [Ev 4 9 TStartStream 4; Ev 4 2 TStartStream 4; Ev 4 1 TStartStream 4;
-      Ev 4 1 TEndStream 4; Ev 4 2 TEndStream 4; Ev 4 9 TEndStream 4]].
+     [Ev 4 9 TStartStream 4; Ev 4 2 TStartStream 4; Ev 4 4 TStartStream 4;
+      Ev 4 4 TEndStream 4; Ev 4 2 TEndStream 4; Ev 4 9 TEndStream 4]] /\
+  (* a designation below the completed lambda 3 is rejected by the resumed run, as by the first *)
+  map (fun r => graph_ok (snd r) (fst r))
+      (run_seqf (S (total_intr ex_plan)) (two_opts ex_popts [([5], [[2; 1; 7]])]) ex_plan) = [true; false].
 Proof.
   split.
   - vm_compute. repeat (constructor; [simpl; intuition discriminate|]). constructor.
-  - split; vm_compute; reflexivity.
+  - repeat split; vm_compute; reflexivity.
 Qed.
 
 (* ------------------------------------------------------------------ payloads *)
